@@ -520,8 +520,14 @@ pub struct Hist {
 /// list never starts with... no guarantee) -- see `safe_pool`.
 fn extra_pool(version: LanceFileVersion) -> Vec<ColTy> {
     let mut pool = ColTy::scalar_pool();
-    pool.extend([ColTy::Dec128(12, 3), ColTy::FslF32(4), ColTy::StructIS, ColTy::DictUtf8, ColTy::ListI32]);
-    let _ = version;
+    pool.extend([ColTy::Dec128(12, 3), ColTy::FslF32(4), ColTy::StructIS, ColTy::DictUtf8]);
+    // 2.1 / 2.2: a data file whose list column has rows but no visible leaf item (all lists NULL or
+    // empty -- common with files of 2-5 rows) is unreadable (C11 known finding
+    // `list-column-without-visible-leaf-items`, e_codec C27 class C); keep that defect out of the
+    // histories of the other properties. First-item-NULL lists are fine since /repo batch 2.
+    if version == LanceFileVersion::V2_0 {
+        pool.push(ColTy::ListI32);
+    }
     pool
 }
 
@@ -631,7 +637,10 @@ impl Hist {
 
     pub fn gen_pred(&self, rng: &mut Rng) -> Pred {
         let ids = self.model.ids();
-        let has_k = self.model.col("k").is_some();
+        // predicates on the indexed column would be answered through the scalar index: index
+        // correctness after updates / merges is C19's subject (known classes there), so histories
+        // with an index select rows by id only
+        let has_k = self.model.col("k").is_some() && self.indexed.is_none();
         match rng.below(if has_k { 8 } else { 5 }) {
             0 | 1 => {
                 // some live ids, sometimes dead / never existing ones
